@@ -85,7 +85,7 @@ def scenarios(tier, rng):
         # moduli that are an exact power of two (and its two neighbours) at EVERY limb boundary +- 1 (thorough: every exponent): a
         # masking fast path for such moduli is selected by the size of the exponent and is wrong for one exponent only (seed T7-A:
         # 2^64 in types wider than a limb)
-        ks = {1, 2, bits - 1, bits - 2}
+        ks = {1, 2, bits - 1, bits - 2, 8, 16, 31, 32, 33}          # word sizes a native fast path might be keyed on
         for lb in range(64, bits + 1, 64):
             ks |= {lb - 1, lb, lb + 1}
         if not quick:
@@ -99,6 +99,14 @@ def scenarios(tier, rng):
             modular(bits, mx - 2, mx, (p2 + 1) & mx)
             if bits <= 256 or k % 64 == 0:
                 powmod(bits, rng.choice([3, mx, rand_value(rng, bits) | 1]), rng.choice([2, 3, 5, 65537 & mx]), p2)
+            # moduli strictly inside (2^k, 2^(k+1)) with the largest residue squared: a native-word fast path selected by the bit
+            # length of the modulus overflows its word only there (seed S7-B: bit_len <= 33 for a 64-bit product)
+            if k in (8, 16, 31, 32, 33, 63, 64, 65) and k + 1 < bits:
+                for m in (p2 + 15, (p2 << 1) - 1, p2 + (p2 >> 1) + 1):
+                    if 2 < m <= mx:
+                        powmod(bits, m - 1, 2, m)
+                        powmod(bits, m - 2, 3, m)
+                        modular(bits, m - 1, m - 1, m)
         # value and modulus sharing a LARGE factor whose low limb is 1 (2^64 + 1, 2^128 + 1, k 2^64 + 1): the gcd the loop ends with
         # is then a multi-limb number that looks like 1 in its lowest limb; and coprime pairs built the same way
         if bits >= 129:
